@@ -1,2 +1,3 @@
-# C17: exact predicates vs unbounded-integer determinants (header-only code under test)
-$(eval $(call HARNESS,c17_predicates,$(V)/harness/C17/c17_predicates.cpp,plain,-O2 -fopenmp,))
+# C17: exact predicates vs unbounded-integer determinants (header-only code under test); part "rescale"
+# reads the rescaled box of NewVoronoiGrid (-fno-access-control)
+$(eval $(call HARNESS,c17_predicates,$(V)/harness/C17/c17_predicates.cpp,plain,-O2 -fopenmp -fno-access-control,))
